@@ -50,26 +50,31 @@ impl Opt {
 
 impl<'a, U: Clone + 'a, E: Clone + 'a, T: Clone + IntoIterator<Item = Result<U, E>> + 'a> Path<T> {
     pub(crate) fn explode(self) -> impl Iterator<Item = Result<Path<U>, E>> + 'a {
-        Path(Vec::new())
-            .combinations(self.0.into_iter())
-            .map(Path::transpose)
+        Path(Vec::new()).combinations(self.0.into_iter())
     }
 }
 
 impl<'a, U: Clone + 'a> Path<U> {
-    fn combinations<I, F>(self, mut iter: I) -> BoxIter<'a, Self>
+    /// Yield all combinations of the outputs of the remaining path parts.
+    ///
+    /// An error of a part ends its combinations, even if later parts yield no output.
+    fn combinations<I, F, E>(self, mut iter: I) -> BoxIter<'a, Result<Self, E>>
     where
         I: Iterator<Item = (Part<F>, Opt)> + Clone + 'a,
-        F: IntoIterator<Item = U> + Clone + 'a,
+        F: IntoIterator<Item = Result<U, E>> + Clone + 'a,
+        E: Clone + 'a,
     {
         if let Some((part, opt)) = iter.next() {
             let parts = part.into_iter();
-            flat_map_with(parts, (self, iter), move |part, (mut prev, iter)| {
-                prev.0.push((part, opt));
-                prev.combinations(iter)
+            flat_map_with(parts, (self, iter), move |part, (mut prev, iter)| match part {
+                Ok(part) => {
+                    prev.0.push((part, opt));
+                    prev.combinations(iter)
+                }
+                Err(e) => box_once(Err(e)),
             })
         } else {
-            box_once(self)
+            box_once(Ok(self))
         }
     }
 }
@@ -159,22 +164,24 @@ impl<'a, V: ValT + 'a> Part<V> {
     }
 }
 
-impl<'a, U: Clone + 'a, F: IntoIterator<Item = U> + Clone + 'a> Part<F> {
-    fn into_iter(self) -> BoxIter<'a, Part<U>> {
+impl<'a, U: Clone + 'a, E: Clone + 'a, F: IntoIterator<Item = Result<U, E>> + Clone + 'a> Part<F> {
+    fn into_iter(self) -> BoxIter<'a, Result<Part<U>, E>> {
         use Part::{Index, Range};
         match self {
-            Index(i) => Box::new(i.into_iter().map(Index)),
-            Range(None, None) => box_once(Range(None, None)),
+            Index(i) => Box::new(i.into_iter().map(|i| i.map(Index))),
+            Range(None, None) => box_once(Ok(Range(None, None))),
             Range(Some(from), None) => {
-                Box::new(from.into_iter().map(|from| Range(Some(from), None)))
+                Box::new(from.into_iter().map(|from| Ok(Range(Some(from?), None))))
             }
             Range(None, Some(upto)) => {
-                Box::new(upto.into_iter().map(|upto| Range(None, Some(upto))))
+                Box::new(upto.into_iter().map(|upto| Ok(Range(None, Some(upto?)))))
             }
             Range(Some(from), Some(upto)) => {
                 Box::new(flat_map_with(from.into_iter(), upto, move |from, upto| {
-                    map_with(upto.into_iter(), from, move |upto, from| {
-                        Range(Some(from), Some(upto))
+                    then(from, |from| {
+                        map_with(upto.into_iter(), from, move |upto, from| {
+                            Ok(Range(Some(from), Some(upto?)))
+                        })
                     })
                 }))
             }
@@ -197,25 +204,6 @@ impl<T> Part<T> {
         match self {
             Index(i) => Index(f(i)),
             Range(from, upto) => Range(from.map(&mut f), upto.map(&mut f)),
-        }
-    }
-}
-
-impl<T, E> Path<Result<T, E>> {
-    fn transpose(self) -> Result<Path<T>, E> {
-        self.0
-            .into_iter()
-            .map(|(part, opt)| Ok((part.transpose()?, opt)))
-            .collect::<Result<_, _>>()
-            .map(Path)
-    }
-}
-
-impl<T, E> Part<Result<T, E>> {
-    fn transpose(self) -> Result<Part<T>, E> {
-        match self {
-            Self::Index(i) => Ok(Part::Index(i?)),
-            Self::Range(from, upto) => Ok(Part::Range(from.transpose()?, upto.transpose()?)),
         }
     }
 }
